@@ -12,7 +12,7 @@ def scripts(rnd, n_random):
     def add(**kw):
         nonlocal i
         i += 1
-        sc = {"id": "fc%d" % i, "tls": False, "peer": "acks", "k": 1, "op": "ack", "sendSize": 0, "deadlineMs": 150, "closeAtMs": -1, "lateMs": 0}
+        sc = {"id": "fc%d" % i, "tls": False, "peer": "acks", "k": 1, "op": "ack", "sendSize": 0, "deadlineMs": 150, "closeAtMs": -1, "lateMs": 0, "secret": ""}
         sc.update(kw)
         out.append(sc)
     for tls in (False, True):
@@ -28,9 +28,16 @@ def scripts(rnd, n_random):
             add(tls=tls, k=k, peer="acks", op="send", sendSize=2000000, deadlineMs=3000)
             add(tls=tls, k=k, peer="acks", op="ping", deadlineMs=150)
             add(tls=tls, k=k, peer="noread", op="ping", deadlineMs=150)
+    add(tls=True, secret="tlsmute")
+    for tls in (False, True):
+        for secret in ("wrongkey", "reject", "mute"):
+            add(tls=tls, secret=secret)
+        for peer in ("acks", "silent", "late"):
+            add(tls=tls, secret="right", k=1, peer=peer, op="ack", deadlineMs=120, lateMs=60)
+        add(tls=tls, secret="right", k=0, peer="noread", op="send", sendSize=BIG, deadlineMs=600, closeAtMs=40)
     for _ in range(n_random):
         op = rnd.choice(["ack", "ack", "ack", "send", "ping"])
-        sc = {"tls": rnd.random() < 0.3, "k": rnd.randrange(4), "op": op, "deadlineMs": rnd.choice([60, 120, 250, 500])}
+        sc = {"tls": rnd.random() < 0.3, "k": rnd.randrange(4), "op": op, "deadlineMs": rnd.choice([60, 120, 250, 500]), "secret": rnd.choice(["", "", "right"])}
         if op == "ack":
             sc["peer"] = rnd.choice(["acks", "wrong", "silent", "silent", "closes", "resets", "garbage", "late", "late"])
             if sc["peer"] == "late":
